@@ -50,6 +50,47 @@ Definition overlap2 (o e : reg2) : option reg2 :=
   | _, _ => None
   end.
 
+(* ---- in-place writes  a[y0:y1, x0:x1] = v ---- *)
+(* numpy slice assignment, in the same firstn/skipn vocabulary as [slice2] (the slice clips at the array edge) *)
+Definition fill1 {A} (l : list A) (a b : Z) (f : A -> A) : list A :=
+  firstn (Z.to_nat a) l ++ map f (slice1 l a b) ++ skipn (Z.to_nat b) l.
+Definition fill2 {A} (m : list (list A)) (r : reg2) (v : A) : list (list A) :=
+  let '(y0, y1, x0, x1) := r in fill1 m y0 y1 (fun row => fill1 row x0 x1 (fun _ => v)).
+(* the same written independently, pixel by pixel: (i,j) becomes v iff it lies in the region *)
+Fixpoint mapi_from {A B} (k : Z) (f : Z -> A -> B) (l : list A) : list B :=
+  match l with [] => [] | x :: t => f k x :: mapi_from (k + 1) f t end.
+Definition in_regb (r : reg2) (i j : Z) : bool :=
+  let '(y0, y1, x0, x1) := r in (y0 <=? i) && (i <? y1) && (x0 <=? j) && (j <? x1).
+Definition fill_spec {A} (m : list (list A)) (r : reg2) (v : A) : list (list A) :=
+  mapi_from 0 (fun i row => mapi_from 0 (fun j x => if in_regb r i j then v else x) row) m.
+
+(* ---- a Layout2D: (shape_2d, original_roe_corner, parallel_overscan, serial_prescan, serial_overscan) ---- *)
+Definition layout := (reg1 * reg1 * option reg2 * option reg2 * option reg2)%type.
+Definition obind {A B} (x : option A) (f : A -> option B) : option B := match x with Some a => f a | None => None end.
+Definition oforall {A} (p : A -> bool) (x : option A) : bool := match x with Some a => p a | None => true end.
+Definition lay_rot_spec (l : layout) (c : reg1) : layout :=
+  let '(s, c0, po, sp, so) := l in
+  let f := option_map (fun r => rot_region_spec r s c) in (s, c, f po, f sp, f so).
+Definition lay_ext_spec (l : layout) (e : reg2) : layout :=
+  let '(s, c0, po, sp, so) := l in
+  let f := fun o => obind o (fun r => overlap2 r e) in (s, c0, f po, f sp, f so).
+Definition lay_insideb (l : layout) : bool :=
+  let '(s, c0, po, sp, so) := l in oforall (inside2b s) po && oforall (inside2b s) sp && oforall (inside2b s) so.
+Definition lay_validb (l : layout) : bool :=
+  let '(s, c0, po, sp, so) := l in oforall valid2b po && oforall valid2b sp && oforall valid2b so.
+
+(* ---- histories on ONE array object (an Array2D stored natively, or an ndarray) ----
+   The object has contents and a read-out corner; the steps are what a user does with it. *)
+Inductive astep :=
+| ARead                        (* read the rotated array (Array2D.original_orientation, Layout2D.original_orientation_from,
+                                  layout_util.rotate_array_via_roe_corner_from); OBSERVED *)
+| ASlice (r : reg2)            (* read array.native[region.slice] (Layout2D.extract_*_array_from, Region2D.slice); OBSERVED *)
+| AWrite (r : reg2) (v : Z)    (* in-place write by the user: array[y0:y1, x0:x1] = v *)
+| AEditOut (r : reg2) (v : Z)  (* the user edits the array RETURNED by the latest read in place; OBSERVED after the edit *)
+| ALast                        (* look again at the array returned by the latest read; OBSERVED *)
+| ACorner (c : reg1)           (* the user changes header.original_roe_corner *)
+| ADerive.                     (* the object is replaced by one derived from it with the same contents (copy, .native, +0, ...) *)
+
 (* ---- boolean equalities ---- *)
 Definition reg1_eqb (a b : reg1) := (fst a =? fst b) && (snd a =? snd b).
 Definition reg2_eqb (a b : reg2) : bool :=
@@ -76,7 +117,14 @@ Inductive case :=
   (* implementation: slice (rotated array) by (rotated region) *)
 | KCommute (m : list (list Z)) (r : reg2) (c : reg1) (out : list (list Z))
   (* implementation: rotate twice *)
-| KTwice (m : list (list Z)) (r : reg2) (c : reg1) (out : list (list Z) * reg2).
+| KTwice (m : list (list Z)) (r : reg2) (c : reg1) (out : list (list Z) * reg2)
+  (* whole layouts: Layout2D.new_rotated_from / rotated_from_roe_corner, Layout2D.layout_extracted_from *)
+| KLayRot (l : layout) (c : reg1) (out : res layout)
+| KLayExt (l : layout) (e : reg2) (out : res layout)
+  (* array.native[region.slice] as returned by Layout2D.extract_*_array_from / Region2D.slice *)
+| KSlice (m : list (list Z)) (r : reg2) (out : list (list Z))
+  (* a history on one array object: initial contents and corner, the steps, what each observed step returned *)
+| KHistA (m0 : list (list Z)) (c0 : reg1) (steps : list astep) (outs : list (option (list (list Z)))).
 
 Definition r1e := res_eqb reg1_eqb.
 Definition r2e := res_eqb reg2_eqb.
@@ -91,6 +139,57 @@ Definition expect1 (want : reg1) (out : res reg1) : bool :=
 Definition shape_of (m : list (list Z)) : Z * Z :=
   (Z.of_nat (length m), Z.of_nat (length (hd [] m))).
 
+
+Definition oreg_eqb := option_eqb reg2_eqb.
+Definition lay_eqb (a b : layout) : bool :=
+  let '(s, c, po, sp, so) := a in let '(s', c', po', sp', so') := b in
+  reg1_eqb s s' && reg1_eqb c c' && oreg_eqb po po' && oreg_eqb sp sp' && oreg_eqb so so'.
+Definition rle := res_eqb lay_eqb.
+Definition oarr_eqb := option_eqb arr_eqb.
+
+(* specification of a history: every observation is a pure function of the CURRENT contents and corner, which are
+   the initial ones updated by the writes / corner changes made so far, and of nothing else; an edit of a returned
+   array changes that returned array only.  [all] = the whole history, [i] = position of the head of [rest]. *)
+Definition awrites (pre : list astep) (m : list (list Z)) : list (list Z) :=
+  fold_left (fun m s => match s with AWrite r v => fill_spec m r v | _ => m end) pre m.
+Definition acorner (pre : list astep) (c : reg1) : reg1 :=
+  fold_left (fun c s => match s with ACorner c' => c' | _ => c end) pre c.
+Fixpoint aspec_from (all : list astep) (i : nat) (rest : list astep) (m0 : list (list Z)) (c0 : reg1)
+                    (prev : option (list (list Z))) (outs : list (option (list (list Z)))) : bool :=
+  match rest with
+  | [] => match outs with [] => true | _ => false end
+  | s :: t =>
+      let cur := awrites (firstn i all) m0 in
+      let cc := acorner (firstn i all) c0 in
+      let observed want :=
+        match outs with
+        | o :: outs' => oarr_eqb o want && aspec_from all (S i) t m0 c0 o outs'
+        | [] => false
+        end in
+      match s with
+      | ARead => observed (Some (rot_array_spec cur cc))
+      | ASlice r => observed (Some (slice2 cur r))
+      | AEditOut r v =>
+          match prev with
+          | Some a => if inside2b (shape_of a) r then observed (Some (fill_spec a r v)) else true   (* no opinion *)
+          | None => observed None
+          end
+      | ALast => observed prev
+      | AWrite _ _ | ACorner _ | ADerive => aspec_from all (S i) t m0 c0 prev outs
+      end
+  end.
+(* the hypotheses under which the specification has an opinion: rectangular non-empty array, valid corners,
+   every written / sliced region valid and inside the array *)
+Definition astep_okb (s : reg1) (st : astep) : bool :=
+  match st with
+  | ASlice r | AWrite r _ => inside2b s r
+  | AEditOut r _ => valid2b r
+  | ACorner c => cornerb c
+  | ARead | ALast | ADerive => true
+  end.
+Definition ahist_okb (m0 : list (list Z)) (c0 : reg1) (steps : list astep) : bool :=
+  let s := shape_of m0 in
+  rectb (fst s) (snd s) m0 && (0 <? fst s) && (0 <? snd s) && cornerb c0 && forallb (astep_okb s) steps.
 
 (* verdict of the SPECIFICATION on what the implementation returned *)
 Definition spec_ok (k : case) : bool :=
@@ -146,4 +245,9 @@ Definition spec_ok (k : case) : bool :=
   | KTwice m r c out =>
       let s := shape_of m in
       negb (inside2b s r && cornerb c && rectb (fst s) (snd s) m) || prod_eqb arr_eqb reg2_eqb out (m, r)
+  | KLayRot l c out => negb (lay_insideb l && cornerb c) || rle out (Ok (lay_rot_spec l c))
+  | KLayExt l e out => negb (lay_validb l && valid2b e) || rle out (Ok (lay_ext_spec l e))
+  | KSlice m r out =>
+      let s := shape_of m in negb (inside2b s r && rectb (fst s) (snd s) m) || arr_eqb out (slice2 m r)
+  | KHistA m0 c0 steps outs => negb (ahist_okb m0 c0 steps) || aspec_from steps 0 steps m0 c0 None outs
   end.
